@@ -158,10 +158,73 @@ def check_trie(mu, p=None):
     return None, n
 
 
+def check_root_node_history(mu):
+    """root_node equals traverse(()) on ONE long-lived trie object after every kind of root change: direct set /
+    delete, committed and aborted squash_changes batches, direct assignment of an earlier root hash"""
+    from trie import HexaryTrie
+    items = sorted(mu.items())
+    n = 0
+    for prune in (False, True):
+        t = HexaryTrie({}, prune=prune)
+        model = {}
+        roots = []
+
+        def same(where):
+            rn, tv = t.root_node, t.traverse(())
+            if _describe(rn) != _describe(tv) or rn.raw != tv.raw:
+                return "root_node != traverse(()) %s (prune=%r): root_node describes %r, traverse(()) %r" % (
+                    where, prune, _describe(rn), _describe(tv))
+            want = yp.node_at(yp.structure(model), ())
+            if _describe(rn)[0] != {"blank": 0, "leaf": 1, "ext": 2, "branch": 3}.get(want[0], -1) and False:
+                return "root_node type differs from the model " + where
+            return None
+        r = same("on the empty trie")
+        if r:
+            return r, n
+        for i, (k, v) in enumerate(items):
+            n += 1
+            if i % 2 == 0:
+                t[k] = v
+            else:
+                with t.squash_changes() as b:
+                    b[k] = v
+            model[k] = v
+            roots.append(t.root_hash)
+            r = same("after %s of %r" % ("a direct set" if i % 2 == 0 else "a committed batch", k))
+            if r:
+                return r, n
+        if items:
+            k0 = items[0][0]
+            try:
+                with t.squash_changes() as b:
+                    del b[k0]
+                    raise KeyboardInterrupt()
+            except KeyboardInterrupt:
+                pass
+            r = same("after an aborted batch")
+            if r:
+                return r, n
+            with t.squash_changes() as b:
+                del b[k0]
+            model.pop(k0)
+            r = same("after a committed batch that deletes %r" % (k0,))
+            if r:
+                return r, n
+            if not prune and len(roots) > 1:
+                t.root_hash = roots[0]
+                r = same("after assigning an earlier root hash")
+                if r:
+                    return r, n
+    return None, n
+
+
 def _work(chunk):
     p = Partial()
     for mu in chunk:
         res, n = check_trie(mu, p)
+        if not res:
+            res, n2 = check_root_node_history(mu)
+            n += n2
         p.evaluations += n
         if res:
             p.violation(res, {"driver": "traverse", "mu": {a.hex(): b.hex() for a, b in mu.items()}})
@@ -173,7 +236,9 @@ def _work(chunk):
 def run(prop, tier, seed):
     tries = H.small_tries(4 if tier == "thorough" else 3)
     total = run_chunks(_work, tries)
-    return total, ["%d tries (subsets of <=%d of 8 prefix-related keys x 3 value-size patterns: embedded and "
+    return total, ["root_node against traverse(()) on one long-lived object per trie after direct sets, committed and "
+                   "aborted squash_changes batches and assignment of an earlier root hash (prune off and on)",
+                   "%d tries (subsets of <=%d of 8 prefix-related keys x 3 value-size patterns: embedded and "
                    "hashed nodes, values on branches, keys prefixing keys) x every nibble path built from the key "
                    "nibbles and diverging nibbles up to two beyond the longest key; every split prefix+segment "
                    "for traverse_from (from real and simulated nodes) with a database-read counter"
@@ -182,4 +247,4 @@ def run(prop, tier, seed):
 
 def replay(case):
     mu = {bytes.fromhex(a): bytes.fromhex(b) for a, b in case["mu"].items()}
-    return check_trie(mu)[0]
+    return check_trie(mu)[0] or check_root_node_history(mu)[0]
